@@ -1118,3 +1118,359 @@ Proof.
   exists s, c'. split; [exact H1|].
   exact (C06_first_include_wins _ _ _ _ _ _ _ _ _ _ _ _ _ _ _ _ _ H1 H2 H3 H4 H5 H6 H7 H8 H9 H10).
 Qed.
+
+(* ================================================================================================== *)
+(* added from Properties/C06_add.v (2026-10-01)                                              *)
+(* ================================================================================================== *)
+(* C06 (continued)  Include merging stated on the FILES (proofs: Proofs/IncludeFiles.v).
+
+   The deep theorems above (C06_reachable_file_complete_deep, C06_reachable_file_dict_deep,
+   C06_first_holder_wins_deep) ask, through reach_where, a condition of the intermediate fold states [temp] of the
+   include loop, which can only be discharged by running the merge.  Here the condition is on the files:
+
+     visit_parses fs com root c   (computable; runs the parser only, never a merge)  the files DictReader.read
+                        parses, in PRECEDENCE order -- the root, then for each include directive in order the
+                        included file followed (depth first) by what it includes; entries whose file is on the
+                        current chain or missing are skipped -- each with its own parse.  A file included twice is
+                        listed twice.  The parse of each file is taken at the counter the run has reached (the
+                        counter only numbers the placeholders; the ordinary data of a parse do not depend on it,
+                        C08_ordinary_data_equal, but that composition is not made here: the condition is stated on
+                        the parses as the run performs them).
+     visit_order        the normalised paths of that list.
+
+   [(q, pr)] is an entry of the list and [l1] the entries BEFORE it: the condition is a forallb over l1 of
+   clear_above / clear_upto / falls_off (Proofs/IncludeNested.v) on the file's own parse.
+   (When this fragment is appended to C06.v, drop C06 from the import list.) *)
+From Coq Require Import String.   (* string literals of the examples; imported first so the list names win *)
+From Coq Require Import NArith ZArith List Bool.
+From DictIO Require Import Chars Str Value Scalar SDict Lexer TokParser Reader TreeSpec LayoutSpec SemProofs
+     IncludeProofs IncludeNested IncludeFiles.
+From DictIO Require MiscSpec CounterBase CounterProofs IncludeFilesCounter.
+Import ListNotations.
+
+(* the reach_where hypothesis of the deep theorems, for ANY condition N that merges keep (merge_closed: N [] and
+   N target -> N merged-in -> N (merge)), follows from N on the own parse of every file visited earlier *)
+Theorem C06_files_reach_where : forall fs root com c s c' l1 q pr l2 (N : list (key * tree) -> Prop) x1 l1',
+  fs_wf fs = true -> merge_closed N ->
+  read_plain fs root true com c = Ok (s, c') ->
+  visit_parses fs com root c = Ok (l1 ++ (q, pr) :: l2) -> l1 = x1 :: l1' ->
+  Forall (Nfile N) l1 ->
+  exists u0 pr0 f' chain',
+    fs_lookup (norm_path root) fs = Some u0 /\ parse_unit com root c u0 = Ok pr0 /\
+    reach_where fs com N (S (length fs)) [] (pr_sd pr0) (pr_count pr0) f' chain' q pr.
+Proof. exact files_reach_where. Qed.
+Print Assumptions C06_files_reach_where.
+
+Theorem C06_conditions_merge_closed : forall p, forallb ordinary_key p = true ->
+  merge_closed (fun d => clear_above (Dict d) p = true) /\
+  merge_closed (fun d => clear_upto (Dict d) p = true) /\
+  (p <> [] -> merge_closed (fun d => falls_off (Dict d) p = true)).
+Proof.
+  intros p Hp. split; [exact (clear_above_closed p Hp)|]. split; [exact (clear_upto_closed p Hp) | exact (falls_off_closed p Hp)].
+Qed.
+Print Assumptions C06_conditions_merge_closed.
+
+(* a successful read has a visit list *)
+Theorem C06_read_has_visit_list : forall fs root com c s c',
+  read_plain fs root true com c = Ok (s, c') -> exists l, visit_parses fs com root c = Ok l.
+Proof. exact read_visit_parses. Qed.
+Print Assumptions C06_read_has_visit_list.
+
+(* ---- COMPLETENESS on the files ----------------------------------------------------------------------- *)
+(* every ordinary key path of every visited file leads to something in the read result, unless a file visited
+   EARLIER holds a leaf or a list at a proper prefix of it *)
+Theorem C06_complete_files : forall fs root com c s c' l1 q pr l2 p,
+  fs_wf fs = true ->
+  read_plain fs root true com c = Ok (s, c') ->
+  visit_parses fs com root c = Ok (l1 ++ (q, pr) :: l2) ->
+  forallb ordinary_key p = true ->
+  forallb (fun e : str * parsed => clear_above (Dict (sd_data (pr_sd (snd e)))) p) l1 = true ->
+  get_dpath (Dict (sd_data (pr_sd pr))) p <> None ->
+  get_dpath (Dict (sd_data s)) p <> None.
+Proof. exact complete_files. Qed.
+Print Assumptions C06_complete_files.
+
+(* ... and to a dict where the file has a dict, unless an earlier file holds a leaf or a list at the path or above *)
+Theorem C06_dict_files : forall fs root com c s c' l1 q pr l2 p kvs,
+  fs_wf fs = true ->
+  read_plain fs root true com c = Ok (s, c') ->
+  visit_parses fs com root c = Ok (l1 ++ (q, pr) :: l2) ->
+  forallb ordinary_key p = true ->
+  forallb (fun e : str * parsed => clear_upto (Dict (sd_data (pr_sd (snd e)))) p) l1 = true ->
+  get_dpath (Dict (sd_data (pr_sd pr))) p = Some (Dict kvs) ->
+  exists kvs', get_dpath (Dict (sd_data s)) p = Some (Dict kvs').
+Proof. exact dict_files. Qed.
+Print Assumptions C06_dict_files.
+
+(* ---- INCLUDE ORDER on the files ----------------------------------------------------------------------- *)
+(* the leaf at kp in the result is the leaf of the FIRST file in visit order that holds anything at kp or above *)
+Theorem C06_first_holder_files : forall fs root com c s c' l1 q pr l2 p v,
+  fs_wf fs = true ->
+  read_plain fs root true com c = Ok (s, c') ->
+  visit_parses fs com root c = Ok (l1 ++ (q, pr) :: l2) ->
+  forallb ordinary_key p = true -> leaf_ok p v = true ->
+  forallb (fun e : str * parsed => falls_off (Dict (sd_data (pr_sd (snd e)))) p) l1 = true ->
+  get_dpath (Dict (sd_data (pr_sd pr))) p = Some (Leaf v) ->
+  get_dpath (Dict (sd_data s)) p = Some (Leaf v).
+Proof. exact first_holder_files. Qed.
+Print Assumptions C06_first_holder_files.
+
+(* ---- non-vacuity on the five files of C06n_fs ---------------------------------------------------------- *)
+Definition C06f_list : list (str * parsed) :=
+  match visit_parses C06n_fs true C06n_root (-1)%Z with Ok l => l | Raise _ => [] end.
+Ltac C06f_split k :=
+  let l1 := eval vm_compute in (firstn k C06f_list) in
+  let pr := eval vm_compute in (snd (nth k C06f_list (C06n_s "", C06n_dummy))) in
+  let l2 := eval vm_compute in (skipn (S k) C06f_list) in
+  exists l1, pr, l2.
+Definition C06f_own (e : str * parsed) : list (key * tree) := remove_include_keys (sd_data (pr_sd (snd e))).
+
+(* the visit order is  r a c b d,  and the read result is the union of the files' own data taken in that order
+   (merge_spec: the target wins, dicts are merged key by key) *)
+Example C06_visit_order_example :
+  visit_order C06n_fs true C06n_root (-1)%Z =
+    [C06n_s "/r.dict"; C06n_s "/a.json"; C06n_s "/c.dict"; C06n_s "/b.json"; C06n_s "/d.json"] /\
+  map (fun e => pr_count (snd e)) C06f_list = [2; 3; 3; 3; 3]%Z /\
+  (exists s c', read_plain C06n_fs C06n_root true true (-1)%Z = Ok (s, c') /\
+     remove_include_keys (sd_data s) = fold_left (fun acc e => merge_spec acc (C06f_own e)) C06f_list []).
+Proof. split; [vm_compute; reflexivity|]. split; [vm_compute; reflexivity|]. do 2 eexists. split; vm_compute; reflexivity. Qed.
+
+Example C06_complete_files_nonvacuous :
+  (* c.dict is the third file visited; only c.dict has sub.only.u; r.dict and a.json hold dicts at sub *)
+  let p := C06n_p3 "sub" "only" "u" in
+  exists s c' l1 pr l2,
+    fs_wf C06n_fs = true /\
+    read_plain C06n_fs C06n_root true true (-1)%Z = Ok (s, c') /\
+    visit_parses C06n_fs true C06n_root (-1)%Z = Ok (l1 ++ (C06n_s "/c.dict", pr) :: l2) /\
+    map fst l1 = [C06n_s "/r.dict"; C06n_s "/a.json"] /\
+    forallb ordinary_key p = true /\
+    forallb (fun e : str * parsed => clear_above (Dict (sd_data (pr_sd (snd e)))) p) l1 = true /\
+    get_dpath (Dict (sd_data (pr_sd pr))) p <> None /\
+    get_dpath (Dict (sd_data s)) p <> None.
+Proof.
+  intro p.
+  do 2 eexists. C06f_split 2%nat.
+  do 7 C06n_keep C06n_vm.
+  eapply C06_complete_files; eassumption.
+Qed.
+
+Example C06_dict_files_nonvacuous :
+  (* b.json is the fourth file visited; its sub.deep is a dict, as in r, a and c before it *)
+  let p := C06n_p2 "sub" "deep" in
+  exists s c' l1 pr l2 kvs,
+    fs_wf C06n_fs = true /\
+    read_plain C06n_fs C06n_root true true (-1)%Z = Ok (s, c') /\
+    visit_parses C06n_fs true C06n_root (-1)%Z = Ok (l1 ++ (C06n_s "/b.json", pr) :: l2) /\
+    length l1 = 3%nat /\
+    forallb ordinary_key p = true /\
+    forallb (fun e : str * parsed => clear_upto (Dict (sd_data (pr_sd (snd e)))) p) l1 = true /\
+    get_dpath (Dict (sd_data (pr_sd pr))) p = Some (Dict kvs) /\
+    exists kvs', get_dpath (Dict (sd_data s)) p = Some (Dict kvs').
+Proof.
+  intro p.
+  do 2 eexists. C06f_split 3%nat. eexists.
+  do 7 C06n_keep C06n_vm.
+  eapply C06_dict_files; eassumption.
+Qed.
+
+Example C06_first_holder_files_nonvacuous :
+  (* sub.deep.r: nothing in r.dict and a.json; 4 in c.dict (visited third); 3 in b.json (visited fourth) *)
+  let p := C06n_p3 "sub" "deep" "r" in
+  exists s c' l1 pr l2,
+    fs_wf C06n_fs = true /\
+    read_plain C06n_fs C06n_root true true (-1)%Z = Ok (s, c') /\
+    visit_parses C06n_fs true C06n_root (-1)%Z = Ok (l1 ++ (C06n_s "/c.dict", pr) :: l2) /\
+    forallb ordinary_key p = true /\ leaf_ok p (SInt 4) = true /\
+    forallb (fun e : str * parsed => falls_off (Dict (sd_data (pr_sd (snd e)))) p) l1 = true /\
+    get_dpath (Dict (sd_data (pr_sd pr))) p = Some (Leaf (SInt 4)) /\
+    get_dpath (Dict (sd_data (pr_sd (snd (hd (C06n_s "", C06n_dummy) l2))))) p = Some (Leaf (SInt 3)) /\
+    get_dpath (Dict (sd_data s)) p = Some (Leaf (SInt 4)).
+Proof.
+  intro p.
+  do 2 eexists. C06f_split 2%nat.
+  do 8 C06n_keep C06n_vm.
+  eapply C06_first_holder_files; eassumption.
+Qed.
+
+(* the reach_where hypothesis of C06_first_holder_wins_deep obtained from the files, then the deep theorem applied *)
+Example C06_files_reach_where_nonvacuous :
+  let p := C06n_p3 "sub" "deep" "r" in
+  let N := fun d => falls_off (Dict d) p = true in
+  exists s c' l1 pr l2,
+    read_plain C06n_fs C06n_root true true (-1)%Z = Ok (s, c') /\
+    visit_parses C06n_fs true C06n_root (-1)%Z = Ok (l1 ++ (C06n_s "/c.dict", pr) :: l2) /\
+    length l1 = 2%nat /\ Forall (Nfile N) l1 /\
+    (exists u0 pr0 f' chain',
+       fs_lookup (norm_path C06n_root) C06n_fs = Some u0 /\ parse_unit true C06n_root (-1)%Z u0 = Ok pr0 /\
+       reach_where C06n_fs true N (S (length C06n_fs)) [] (pr_sd pr0) (pr_count pr0) f' chain' (C06n_s "/c.dict") pr) /\
+    get_dpath (Dict (sd_data s)) p = Some (Leaf (SInt 4)).
+Proof.
+  intros p N.
+  do 2 eexists. C06f_split 2%nat.
+  do 3 C06n_keep C06n_vm.
+  match goal with |- Forall _ ?l1 /\ _ => assert (HF : Forall (Nfile N) l1) end.
+  { apply (forallb_Nfile (fun d => falls_off (Dict d) p)). vm_compute. reflexivity. }
+  split; [exact HF|].
+  assert (Hfs : fs_wf C06n_fs = true) by (vm_compute; reflexivity).
+  assert (Hp : forallb ordinary_key p = true) by (vm_compute; reflexivity).
+  assert (Hcl : merge_closed N).
+  { apply (proj2 (proj2 (C06_conditions_merge_closed p Hp))). discriminate. }
+  destruct (C06_files_reach_where _ _ _ _ _ _ _ _ _ _ N _ _ Hfs Hcl Hyp Hyp0 eq_refl HF) as [u0 [pr0 [f' [chain' [Hl [Hp0 Hr]]]]]].
+  split; [exists u0, pr0, f', chain'; repeat split; assumption|].
+  eapply (C06_first_holder_wins_deep C06n_fs C06n_root true (-1)%Z _ _ u0 pr0 f' chain' _ _ p (SInt 4) Hfs Hyp Hl Hp0 Hp);
+    [vm_compute; reflexivity | exact Hr | vm_compute; reflexivity].
+Qed.
+
+(* the condition cannot be dropped (the file level reading of C06_blocked_path_finding): r.json, x.json, f.json are
+   visited in this order; f.json holds a.c; x.json, visited earlier, holds the leaf  a 7  above it; the result
+   holds nothing at a.c *)
+Example C06_complete_files_condition_finding :
+  let fs := [ (C06n_s "/r.json", FJson [C06n_inc "#include" "x.json"; C06n_kd "a" [C06n_kv "b" 1]]);
+              (C06n_s "/x.json", FJson [C06n_inc "#include" "f.json"; C06n_kv "a" 7]);
+              (C06n_s "/f.json", FJson [C06n_kd "a" [C06n_kv "c" 5]]) ] in
+  let p := C06n_p2 "a" "c" in
+  visit_order fs true (C06n_s "/r.json") (-1)%Z = [C06n_s "/r.json"; C06n_s "/x.json"; C06n_s "/f.json"] /\
+  match visit_parses fs true (C06n_s "/r.json") (-1)%Z, read_plain fs (C06n_s "/r.json") true true (-1)%Z with
+  | Ok [r; x; f], Ok (s, _) =>
+      map (fun e : str * parsed => clear_above (Dict (sd_data (pr_sd (snd e)))) p) [r; x] = [true; false] /\
+      get_dpath (Dict (sd_data (pr_sd (snd f)))) p = Some (Leaf (SInt 5)) /\
+      get_dpath (Dict (sd_data s)) p = None
+  | _, _ => False
+  end.
+Proof. split; vm_compute; repeat split; reflexivity. Qed.
+
+(* ---- the visit list holds exactly the reached files ----------------------------------------------------- *)
+Theorem C06_visit_is_reached : forall fs root com c s c' l u0 pr0 q pr,
+  fs_wf fs = true ->
+  read_plain fs root true com c = Ok (s, c') ->
+  visit_parses fs com root c = Ok l ->
+  fs_lookup (norm_path root) fs = Some u0 -> parse_unit com root c u0 = Ok pr0 ->
+  hd_error l = Some (root, pr0) /\
+  (In (q, pr) (tl l) <->
+   exists f' chain', run_reach fs com (S (length fs)) [] (pr_sd pr0) (pr_count pr0) f' chain' q pr).
+Proof. exact visit_is_reached. Qed.
+Print Assumptions C06_visit_is_reached.
+
+Example C06_visit_is_reached_nonvacuous :
+  (* c.dict, the third entry of the list, is reached (through a.json) *)
+  exists s c' l u0 pr,
+    fs_wf C06n_fs = true /\
+    read_plain C06n_fs C06n_root true true (-1)%Z = Ok (s, c') /\
+    visit_parses C06n_fs true C06n_root (-1)%Z = Ok l /\
+    fs_lookup (norm_path C06n_root) C06n_fs = Some u0 /\ parse_unit true C06n_root (-1)%Z u0 = Ok C06n_pr0 /\
+    nth_error (tl l) 1 = Some (C06n_s "/c.dict", pr) /\
+    exists f' chain', run_reach C06n_fs true (S (length C06n_fs)) [] (pr_sd C06n_pr0) (pr_count C06n_pr0) f' chain'
+                                (C06n_s "/c.dict") pr.
+Proof.
+  do 5 eexists. do 6 C06n_keep C06n_vm.
+  apply (proj2 (C06_visit_is_reached _ _ _ _ _ _ _ _ _ _ _ Hyp Hyp0 Hyp1 Hyp2 Hyp3)).
+  eapply nth_error_In. exact Hyp4.
+Qed.
+
+(* ---- graphs without conflicts: the property in its own words ---------------------------------------------- *)
+(* no_conflict l (computable): for every file of the visit list and every file visited after it, wherever both
+   hold something along ordinary keys they hold the same kind (a dict / not a dict): compat *)
+Theorem C06_complete_no_conflict : forall fs root com c s c' l q pr p,
+  fs_wf fs = true ->
+  read_plain fs root true com c = Ok (s, c') ->
+  visit_parses fs com root c = Ok l -> no_conflict l = true ->
+  In (q, pr) l ->
+  forallb ordinary_key p = true ->
+  get_dpath (Dict (sd_data (pr_sd pr))) p <> None ->
+  get_dpath (Dict (sd_data s)) p <> None.
+Proof. exact complete_no_conflict. Qed.
+Print Assumptions C06_complete_no_conflict.
+
+Theorem C06_reachable_complete_no_conflict : forall fs root com c s c' l u0 pr0 f' chain' q pr p,
+  fs_wf fs = true ->
+  read_plain fs root true com c = Ok (s, c') ->
+  visit_parses fs com root c = Ok l -> no_conflict l = true ->
+  fs_lookup (norm_path root) fs = Some u0 -> parse_unit com root c u0 = Ok pr0 ->
+  run_reach fs com (S (length fs)) [] (pr_sd pr0) (pr_count pr0) f' chain' q pr ->
+  forallb ordinary_key p = true ->
+  get_dpath (Dict (sd_data (pr_sd pr))) p <> None ->
+  get_dpath (Dict (sd_data s)) p <> None.
+Proof. exact reachable_complete_no_conflict. Qed.
+Print Assumptions C06_reachable_complete_no_conflict.
+
+(* C06n_fs with the leaf  blk 7  of a.json replaced by a dict: no conflicts *)
+Definition C06f_fs : fsys :=
+  [ (C06n_s "/r.dict", FNative (C06n_s "#include 'a.json'
+#include 'b.json'
+#include 'd.json'
+sub { x 1; deep { p 1; } }
+"));
+    (C06n_s "/a.json", FJson [C06n_inc "#include" "c.dict";
+                              C06n_kd "sub" [C06n_kv "x" 2; C06n_kv "y" 2; C06n_kd "deep" [C06n_kv "p" 2; C06n_kv "q" 2]];
+                              C06n_kd "blk" [C06n_kv "k" 7]]);
+    (C06n_s "/b.json", FJson [C06n_kd "sub" [C06n_kv "y" 3; C06n_kv "z" 3;
+                                             C06n_kd "deep" [C06n_kv "q" 3; C06n_kv "r" 3; C06n_kv "t" 3]];
+                              C06n_kd "blk" [C06n_kv "m" 3]]);
+    (C06n_s "/c.dict", FNative (C06n_s "sub { z 4; w 4; deep { q 4; r 4; s 4; } only { u 4; } }
+blk { m 4; }
+"));
+    (C06n_s "/d.json", FJson [C06n_kd "sub" [C06n_kd "deep" [C06n_kv "t" 9; C06n_kv "p" 9]]]) ].
+
+Example C06_complete_no_conflict_nonvacuous :
+  (* blk.m is held by c.dict (third) and b.json (fourth) only *)
+  let p := C06n_p2 "blk" "m" in
+  exists s c' l pr,
+    fs_wf C06f_fs = true /\
+    read_plain C06f_fs C06n_root true true (-1)%Z = Ok (s, c') /\
+    visit_parses C06f_fs true C06n_root (-1)%Z = Ok l /\ no_conflict l = true /\ length l = 5%nat /\
+    nth_error l 3 = Some (C06n_s "/b.json", pr) /\
+    forallb ordinary_key p = true /\
+    get_dpath (Dict (sd_data (pr_sd pr))) p <> None /\
+    get_dpath (Dict (sd_data s)) p <> None.
+Proof.
+  intro p. do 4 eexists. do 8 C06n_keep C06n_vm.
+  eapply C06_complete_no_conflict; try eassumption. eapply nth_error_In. exact Hyp4.
+Qed.
+
+(* the hypothesis cannot be dropped: in C06n_fs a.json holds the leaf  blk 7,  b.json and c.dict hold dicts at
+   blk; no_conflict is false, and blk.m of b.json is not in the result *)
+Example C06_no_conflict_needed_finding :
+  let p := C06n_p2 "blk" "m" in
+  no_conflict C06f_list = false /\
+  (exists pr, nth_error C06f_list 3 = Some (C06n_s "/b.json", pr) /\
+              get_dpath (Dict (sd_data (pr_sd pr))) p = Some (Leaf (SInt 3))) /\
+  C06n_at p = None /\ C06n_at (C06n_p1 "blk") = Some (Leaf (SInt 7)).
+Proof.
+  intro p. split; [vm_compute; reflexivity|]. split; [eexists; split; vm_compute; reflexivity|].
+  split; vm_compute; reflexivity.
+Qed.
+
+(* ---- bridge to C08: the conditions can be evaluated on a NATIVE file parsed on its own, at any counter ---------- *)
+(* (for key paths of placeholder-free keys, plain_key; side conditions of C08_parse_counter_independent.  The
+   visit list gives each file's parse at the counter of the run; this says the three conditions do not depend on
+   it.  Not composed with the theorems above, and not available for JSON units.) *)
+Theorem C06_native_conditions_counter_free : forall c1 c2 dir text pr1 pr2 p,
+  MiscSpec.counter_ok c1 -> MiscSpec.counter_ok c2 -> CounterBase.cleanb text = true -> CounterBase.cleanb dir = true ->
+  CounterProofs.parse_side (lex true dir c1 text) = true ->
+  parse_string true dir c1 text = Ok pr1 -> parse_string true dir c2 text = Ok pr2 ->
+  forallb CounterProofs.plain_key p = true ->
+  clear_above (Dict (sd_data (pr_sd pr2))) p = clear_above (Dict (sd_data (pr_sd pr1))) p /\
+  clear_upto (Dict (sd_data (pr_sd pr2))) p = clear_upto (Dict (sd_data (pr_sd pr1))) p /\
+  falls_off (Dict (sd_data (pr_sd pr2))) p = falls_off (Dict (sd_data (pr_sd pr1))) p.
+Proof. exact IncludeFilesCounter.native_conditions_counter_free. Qed.
+Print Assumptions C06_native_conditions_counter_free.
+
+Example C06_native_conditions_counter_free_nonvacuous :
+  (* r.dict: parsed at -1 by the run (three include placeholders); on its own at 500000 the placeholders differ *)
+  let text := match fs_lookup C06n_root C06n_fs with Some (FNative t) => t | _ => [] end in
+  let p := C06n_p3 "sub" "deep" "r" in
+  exists pr1 pr2,
+    CounterBase.cleanb text = true /\ CounterBase.cleanb (dir_of C06n_root) = true /\
+    CounterProofs.parse_side (lex true (dir_of C06n_root) (-1)%Z text) = true /\
+    parse_string true (dir_of C06n_root) (-1)%Z text = Ok pr1 /\
+    parse_string true (dir_of C06n_root) 500000%Z text = Ok pr2 /\
+    forallb CounterProofs.plain_key p = true /\
+    sd_data (pr_sd pr1) <> sd_data (pr_sd pr2) /\
+    falls_off (Dict (sd_data (pr_sd pr1))) p = true /\
+    falls_off (Dict (sd_data (pr_sd pr2))) p = falls_off (Dict (sd_data (pr_sd pr1))) p.
+Proof.
+  intros text p. do 2 eexists. do 8 C06n_keep C06n_vm.
+  assert (H1 : MiscSpec.counter_ok (-1)%Z) by (split; discriminate).
+  assert (H2 : MiscSpec.counter_ok 500000%Z) by (split; discriminate).
+  exact (proj2 (proj2 (C06_native_conditions_counter_free _ _ _ _ _ _ _ H1 H2 Hyp Hyp0 Hyp1 Hyp2 Hyp3 Hyp4))).
+Qed.
